@@ -17,6 +17,15 @@ pub trait Sys: Send + Sync + 'static {
     /// and, if an invariant failed on the *last* transition or in the reached state, a message
     /// `signature|text`.
     fn exec(&self, root: usize, hist: &[u32]) -> (Vec<u64>, Option<String>);
+    /// is the last action of `hist` enabled after the rest of it? (e.g. deviation bound on faults)
+    fn enabled(&self, _root: usize, _hist: &[u32]) -> bool {
+        true
+    }
+    /// Do different roots span disjoint state spaces (configurations), or are they merely
+    /// different initial states of one system (then states reached from different roots merge)?
+    fn root_in_key(&self) -> bool {
+        true
+    }
     /// maximum history length to expand (closure is normally reached well before)
     fn max_depth(&self) -> usize {
         64
@@ -25,28 +34,40 @@ pub trait Sys: Send + Sync + 'static {
 
 #[derive(Clone, Debug)]
 pub struct RState {
+    /// root for replay
     pub root: u32,
+    /// root as part of the state identity (0 if roots are initial states of one system)
+    pub kroot: u32,
     pub key: Vec<u64>,
     pub hist: Vec<u32>,
     pub bad: Option<String>,
 }
 impl PartialEq for RState {
     fn eq(&self, o: &RState) -> bool {
-        self.root == o.root && self.key == o.key && self.bad.is_some() == o.bad.is_some()
+        self.kroot == o.kroot && self.key == o.key && self.bad.is_some() == o.bad.is_some()
     }
 }
 impl Eq for RState {}
 impl Hash for RState {
     fn hash<H: Hasher>(&self, h: &mut H) {
-        self.root.hash(h);
+        self.kroot.hash(h);
         self.key.hash(h);
         self.bad.is_some().hash(h);
     }
 }
 
+thread_local! {
+    /// set by `Sys::exec` to mark the transition it just executed as non-trivial
+    pub static FLAG: std::cell::Cell<bool> = const { std::cell::Cell::new(false) };
+}
+pub fn flag() {
+    FLAG.with(|f| f.set(true));
+}
+
 pub struct Replay<S: Sys> {
     pub sys: S,
     pub transitions: AtomicU64,
+    pub flagged: AtomicU64,
 }
 
 impl<S: Sys> Model for Replay<S> {
@@ -57,7 +78,7 @@ impl<S: Sys> Model for Replay<S> {
         (0..self.sys.roots())
             .map(|r| {
                 let (key, bad) = self.sys.exec(r, &[]);
-                RState { root: r as u32, key, hist: vec![], bad }
+                RState { root: r as u32, kroot: if self.sys.root_in_key() { r as u32 } else { 0 }, key, hist: vec![], bad }
             })
             .collect()
     }
@@ -70,9 +91,19 @@ impl<S: Sys> Model for Replay<S> {
     fn next_state(&self, s: &RState, a: u32) -> Option<RState> {
         let mut hist = s.hist.clone();
         hist.push(a);
-        self.transitions.fetch_add(1, Ordering::Relaxed);
+        if !self.sys.enabled(s.root as usize, &hist) {
+            return None;
+        }
+        let n = self.transitions.fetch_add(1, Ordering::Relaxed);
+        if n % 200_000 == 0 && std::env::var_os("MC_VERBOSE").is_some() {
+            eprintln!("  e1: {n} transitions, depth {}", hist.len());
+        }
+        FLAG.with(|f| f.set(false));
         let (key, bad) = self.sys.exec(s.root as usize, &hist);
-        Some(RState { root: s.root, key, hist, bad })
+        if FLAG.with(|f| f.get()) {
+            self.flagged.fetch_add(1, Ordering::Relaxed);
+        }
+        Some(RState { root: s.root, kroot: s.kroot, key, hist, bad })
     }
     fn properties(&self) -> Vec<Property<Self>> {
         vec![Property::always("invariants", |_, s: &RState| s.bad.is_none())]
@@ -83,6 +114,8 @@ pub struct Closure {
     pub unique_states: u64,
     pub generated_states: u64,
     pub transitions: u64,
+    /// transitions marked non-trivial by the system (measured in one complete exploration)
+    pub flagged: u64,
     pub max_depth: u64,
     /// (root, action history, message) of the shortest counterexample, if any
     pub counterexample: Option<(usize, Vec<u32>, String)>,
@@ -90,7 +123,7 @@ pub struct Closure {
 
 /// Run the closure with `threads` worker threads (BFS: the first counterexample is a shortest one).
 pub fn close<S: Sys>(sys: S, threads: usize) -> Closure {
-    let model = Replay { sys, transitions: AtomicU64::new(0) };
+    let model = Replay { sys, transitions: AtomicU64::new(0), flagged: AtomicU64::new(0) };
     let checker = model.checker().threads(threads).spawn_bfs().join();
     let cex = checker.discovery("invariants").map(|p| {
         let last = p.last_state().clone();
@@ -100,6 +133,7 @@ pub fn close<S: Sys>(sys: S, threads: usize) -> Closure {
         unique_states: checker.unique_state_count() as u64,
         generated_states: checker.state_count() as u64,
         transitions: checker.model().transitions.load(Ordering::Relaxed),
+        flagged: checker.model().flagged.load(Ordering::Relaxed),
         max_depth: checker.max_depth() as u64,
         counterexample: cex,
     }
@@ -118,5 +152,5 @@ pub fn close_checked<S: Sys + Clone>(sys: S, threads: usize) -> Result<Closure, 
             a.unique_states, b.unique_states, threads
         ));
     }
-    Ok(Closure { transitions: a.transitions, generated_states: a.generated_states, ..b })
+    Ok(Closure { transitions: a.transitions, flagged: a.flagged, generated_states: a.generated_states, ..b })
 }
